@@ -52,7 +52,11 @@ ToS5(s, ev) ==
      lastres |-> [r \in Resources |-> IF r \in DOMAIN s.lastres THEN <<s.lastres[r][1], s.lastres[r][2]>>
                                       ELSE <<0, cfg.pools[r]>>],
      nleaf |-> s.nleaf, inited |-> s.inited,
-     occ |-> [i \in DOMAIN ev.occ |-> Tup(ev.occ[i])], sd |-> [i \in DOMAIN ev.sd |-> Tup(ev.sd[i])]]
+     occ |-> [i \in DOMAIN ev.occ |-> Tup(ev.occ[i])], sd |-> [i \in DOMAIN ev.sd |-> Tup(ev.sd[i])],
+     mt |-> [queue |-> [i \in DOMAIN s.mt.queue |-> <<s.mt.queue[i][1], s.mt.queue[i][2]>>],
+             active |-> [i \in DOMAIN s.mt.active |-> <<s.mt.active[i][1], s.mt.active[i][2]>>],
+             util |-> s.mt.util, value |-> s.mt.value, nvh |-> s.mt.nvh,
+             enter |-> s.mt.enter, start |-> s.mt.start, finish |-> s.mt.finish]]
 ToS(s) == ToS5(s, [occ |-> <<>>, sd |-> <<>>])
 
 (* comparison with the closed specification ignores event identities *)
